@@ -347,11 +347,18 @@ CHECKS = {
        "characterised exactly (setOffset_inMemory_exact: the flushed-but-unsynced prefix held by retryable sync stays in the buffer; reachable by "
        "setOffset_flushedPrefix_witness). Tie: every 4-letter word over {append 1/3, flush, sync, setOffset(size-1/-3)} on a small write buffer plus random op "
        "sequences (35 % in a 'buffer tail' profile: Flush without Sync, appends that stay buffered, rewinds into the buffered tail) on real singleapp/multiapp instances x options vs the Lean driver (offset, n, bytes, error class, size; exact incl. stale "
-       "behaviour and cache eviction order) and a model-independent []byte oracle; compressed formats by the oracle only.",
-  note=TB + " Modelled rather than verified: write/seek/close I/O errors (only fsync failure is injected, in the model only), kernel page cache / "
+       "behaviour and cache eviction order) and a model-independent []byte oracle; compressed formats by the oracle only. "
+       "Fault paths (after seeded change c17-b): syncFail_refines (a Sync whose fsync fails returns the error and is the identity on the byte log: "
+       "Offset/Size/next Append offset unchanged; retryable mode field by field: fileOffset goes back by the flushed count of BEFORE its reset, "
+       "fileOffset + len(buffer) = Offset), syncFail_retry_reopen (failed Sync, successful Sync, Close, Open: same bytes, no stale tail), "
+       "writeFail_unchanged (a write that fails with n=0), multi_syncFail_refines, multi_writeFail_unchanged, syncFail_rollback_witness. The harness INJECTS "
+       "these faults into the real code as ordinary ops of the histories (fsync: /dev/null dup3-ed over the descriptor of the writing file for the one call; "
+       "write: RLIMIT_FSIZE), incl. every 3-letter word over {append 1/3, flush, sync, setOffset(size-1), syncfail, flushfail}; short writes and faults inside Append "
+       "against the oracle only.",
+  note=TB + " Modelled rather than verified: seek/close I/O errors; write errors other than n=0 (short writes and faults inside Append are injected but compared with the oracle only), kernel page cache / "
        "fsync durability, compressed formats (oracle stream only: entries addressed by returned offsets), negative offsets on multiapp, the "
        "prefetch goroutines (off for local files), concurrency (one mutex; a concurrent-reader oracle stream runs but is not modelled). "
-       "readAt_after_failed_sync_witness is model-derived and not reproduced (needs fault injection).",
+       "readAt_after_failed_sync_witness is reproduced on the real code by fault injection (known finding misplaced-bytes-after-failed-sync).",
   technique="Lean 4 refinement proof (invariant + induction over operation lists) + differential correspondence against the real singleapp/multiapp",
   design="7/C17"),
  "C18": dict(
